@@ -238,6 +238,10 @@ def check_case(p, fn, w, rng, nreq, requests=None):
             blk = (rng.randrange(w["nb"]), rng.randrange(w["nb"]))
             z = (0,) * w["np"]
             requests = [("tab", a, blk + z), ("tab", b, blk + z), ("tab", a, blk + z)] + requests
+        if p.get("herm_long") and p["herm_long"] in names:
+            z = (0,) * (w["np"] - 1)
+            requests = [("tab", p["herm_long"], (1, 0, 2) + z), ("tab", p["herm_long"], (1, 1, 2) + z),
+                        ("tab", p["herm_long"], (0, 1, 2) + z)] + requests
     out = dict(evaluations=0, nontrivial=0, undefined=0, raised=0, failures=[], requests=[])
     for (_, name, idx) in requests:
         idx = tuple(idx)
